@@ -51,6 +51,8 @@ class Case:
         self.kind, self.ident, self.inputs, self.build = kind, ident, inputs, build
         self.want_lines, self.numpy_ref, self.concrete = want_lines, numpy_ref, concrete
         self.loose = False
+        self.maps = None          # per output: graph-input name -> in<k> (struct operands: one field per output)
+        self.feed_names = None    # per output: feed keys in the order in0, in1, …
 
 
 def _setitem_index(rng, shape):
@@ -266,6 +268,43 @@ def gen_cases(rng: random.Random, n: int, styles, kinds=None):
                 return {"x": _data(rng, sh, dtype), "i": np.array(vals, dtype=idt).reshape(ishape), "v": np.array(66, dtype=dtype)}
             out.append(Case(kind, (kind, rank, ishape, style, idt, dtype), ["x", "i", "v"], build,
                             {"y": f"tg_render setitem_int {rank} {CODE[idt]}"}, ref, (concrete, shape, style)))
+        elif kind == "null_travel":
+            # C04: through indexing the null flag travels with its element — both fields of a nullable operand go through
+            # the same term (mask selection / integer index array), each on its own field
+            via = rng.choice(["mask", "int"])
+            ndt = "n" + dtype if dtype != "bool" else "nbool"
+            if via == "mask":
+                rank_m = rng.randrange(0, rank + 1)
+                mdims = tuple(dims[:rank_m])
+                def build(dims=dims, mdims=mdims, ndt=ndt):
+                    x = ndx.array(shape=dims, dtype=impl.dt(ndt)); m = ndx.array(shape=mdims, dtype=ndx.bool)
+                    y = x[m]
+                    return {"x": x, "m": m}, {"yv": y.values, "yn": y.null}
+                def ref(feeds):
+                    return {"yv": feeds["x_values"][feeds["m"]], "yn": feeds["x_null"][feeds["m"]]}
+                def concrete(rng, sh, rank_m=rank_m, dtype=dtype):
+                    return {"x_values": _data(rng, sh, dtype), "x_null": _data(rng, sh, "bool"), "m": _data(rng, sh[:rank_m], "bool")}
+                line, second = f"tg_render mask {rank_m}", "m"
+            else:
+                idt = rng.choice(INT_DTYPES[:-1])
+                ishape = rng.choice([(), (1,), (3,), (2, 2)])
+                def build(dims=dims, ishape=ishape, ndt=ndt, idt=idt):
+                    x = ndx.array(shape=dims, dtype=impl.dt(ndt)); i = ndx.array(shape=ishape, dtype=impl.dt(idt))
+                    y = x[i]
+                    return {"x": x, "i": i}, {"yv": y.values, "yn": y.null}
+                def ref(feeds):
+                    ii = feeds["i"].astype(np.int64)
+                    return {"yv": feeds["x_values"][ii], "yn": feeds["x_null"][ii]}
+                def concrete(rng, sh, ishape=ishape, idt=idt, dtype=dtype):
+                    n = sh[0]
+                    if n == 0:
+                        raise ValueError("empty leading axis")
+                    vals = [rng.randrange(0 if idt.startswith("u") else -n, n) for _ in range(int(np.prod(ishape)))]
+                    return {"x_values": _data(rng, sh, dtype), "x_null": _data(rng, sh, "bool"), "i": np.array(vals, dtype=idt).reshape(ishape)}
+                line, second = f"tg_render intindex {CODE[idt]}", "i"
+            out.append(Case(kind, (kind, via, rank, style, ndt), ["x", second], build, {"yv": line, "yn": line}, ref, (concrete, shape, style)))
+            out[-1].maps = {"yv": {"x_values": "in0", second: "in1"}, "yn": {"x_null": "in0", second: "in1"}}
+            out[-1].feed_names = {"yv": ["x_values", second], "yn": ["x_null", second]}
         elif kind == "intindex":
             idt = rng.choice(INT_DTYPES[:-1])
             ishape = rng.choice([(), (0,), (1,), (3,), (2, 2)])
@@ -387,7 +426,7 @@ def run(ctx, n: int, styles=("static", "symbolic", "none"), label="scatter", kin
         got_all = {}
         for name, w in want.items():
             try:
-                got = render(model, name, mapping)
+                got = render(model, name, (c.maps or {}).get(name, mapping))
             except Unsupported as e:
                 got = f"unsupported:{e}"
             got_all[name] = got
@@ -431,7 +470,7 @@ def run(ctx, n: int, styles=("static", "symbolic", "none"), label="scatter", kin
                                   f"{c.ident}: output {name} on {({k: v.tolist() for k, v in feeds.items()})} is {np.asarray(res[name]).tolist()}, NumPy gives {np.asarray(r).tolist()}",
                                   {"case": repr(c.ident), "feeds": {k: v.tolist() for k, v in feeds.items()}, "observed": np.asarray(res[name]).tolist(), "expected": np.asarray(r).tolist()})
                     continue
-                eval_lines.append("tg_evald " + ";".join(_feed_tok(feeds[i]) for i in c.inputs) + " " + got_all[name])
+                eval_lines.append("tg_evald " + ";".join(_feed_tok(feeds[i]) for i in (c.feed_names or {}).get(name, c.inputs)) + " " + got_all[name])
                 eval_meta.append((c, name, feeds, _show(res[name])))
     agree = 0
     for a, (c, name, feeds, exp) in zip(common.model(eval_lines), eval_meta):
